@@ -314,6 +314,57 @@ pub fn check_program(ctx: &mut Ctx, h: &H, want_frames: usize, perturb_body: Opt
                                 notes.push(if u_open { "unify-agrees-true" } else { "unify-agrees-false" });
                             }
                         }
+                        // (4) solved holes are transparent under the context too: the term with
+                        // subterms behind holes that were written up to 3 binders further out -
+                        // context entries included - and solved since, normalises and unifies
+                        // like the plain term
+                        let ctx_len: usize = frames_e.iter().map(|(_, es)| es.len()).sum();
+                        let mut wr = crate::util::Rng::for_case(hash_str(&src), 11, 0);
+                        for round in 0..3u32 {
+                            let k = 1 + wr.usize(3);
+                            let tw = crate::emut::wrap_solved(&oz, &mut wr, k, 6000 + 10 * round, ctx_len);
+                            if tw == oz {
+                                continue;
+                            }
+                            let gw = to_gram(&tw);
+                            // the context rebuilt from the mirrored frames (terms that own their names)
+                            let mut dcw: Vec<Option<(Rc<Term<'static>>, usize)>> = frames_e
+                                .iter()
+                                .flat_map(|(is_param, es)| {
+                                    let n = es.len();
+                                    es.iter().enumerate().map(move |(i, e)| if *is_param { None } else { Some((Rc::new(to_gram(&e.2.zonk())), n - i)) }).collect::<Vec<_>>()
+                                })
+                                .collect();
+                            let before = dcw.len();
+                            let w2 = normalize_weak_head(&gw, &mut dcw);
+                            if dcw.len() != before {
+                                report.push(("context-not-restored-by-normalize".into(), format!("{before} entries before, {} after", dcw.len())));
+                            }
+                            let w2e = mirror(&w2).zonk();
+                            let v2 = conv.go(&w2e, &mut rc.stack).ok().and_then(|c| nbe.eval(&c, &rc.env).ok());
+                            let v0 = conv.go(&oz, &mut rc.stack).ok().and_then(|c| nbe.eval(&c, &rc.env).ok());
+                            if let (Some(v2), Some(v0)) = (v2, v0) {
+                                match nbe.conv(&v2, &v0) {
+                                    Ok(true) => notes.push("whnf-through-solved-holes-preserves-meaning"),
+                                    Ok(false) => report.push(("whnf-through-solved-hole-under-context-differs".into(), format!("normalize_weak_head of the term with subterms behind solved holes gives `{w2}` under the context, which is not equal to the term: {}", clip(&tw.show(), 300)))),
+                                    Err(_) => notes.push("reference-fuel"),
+                                }
+                            }
+                            let mut dcs: Vec<Option<(Rc<Term<'static>>, usize)>> = frames_e
+                                .iter()
+                                .flat_map(|(is_param, es)| {
+                                    let n = es.len();
+                                    es.iter().enumerate().map(move |(i, e)| if *is_param { None } else { Some((Rc::new(to_gram(&e.2.zonk())), n - i)) }).collect::<Vec<_>>()
+                                })
+                                .collect();
+                            for (x, y, dir) in [(&tw, &oz, "wrapped-vs-plain"), (&oz, &tw, "plain-vs-wrapped")] {
+                                if !unify(&to_gram(x), &to_gram(y), &mut dcs) {
+                                    report.push(("unify-through-solved-hole-under-context-fails".into(), format!("unify is false under the context for a term and the same term with subterms behind solved holes ({dir}): {}", clip(&tw.show(), 300))));
+                                    break;
+                                }
+                                notes.push("unify-through-solved-holes-true");
+                            }
+                        }
                     }
                 }
             }
